@@ -133,7 +133,7 @@ let field_after (prefix : string) (tok : string) : string option =
   let n = String.length prefix in
   if String.length tok >= n && String.sub tok 0 n = prefix then Some (String.sub tok n (String.length tok - n)) else None
 
-let engine_case fmt instances ammo obs : string * string * bool =
+let engine_case fmt instances ammo ramp obs : string * string * bool =
   let kind = if fmt = "json" then Dropping else Blocking in
   let withid = (fmt <> "phout") in
   match split_blank obs with
@@ -148,7 +148,7 @@ let engine_case fmt instances ammo obs : string * string * bool =
       let v =
         if engerr <> "nil" then "BAD:engine-run-error"
         else if late_n <> 0 then Printf.sprintf "BAD:report-after-aggregator-cancel late=%d" late_n
-        else if List.length cs <> instances || List.fold_left (+) 0 cs <> ammo then "BAD:shots-differ-from-ammo"
+        else if (if ramp then List.length cs < instances else List.length cs <> instances) || List.fold_left (+) 0 cs <> ammo then "BAD:shots-differ-from-ammo"
         else (match drops_err, olines with
               | None, _ -> "BAD:aggregator-ended-with-" ^ aggerr
               | _, None -> "BAD:malformed-or-foreign-line"
@@ -156,11 +156,12 @@ let engine_case fmt instances ammo obs : string * string * bool =
                   if complete_b kind owner reports (List.map n_of_int ls) (n_of_int d) e then "ok"
                   else Printf.sprintf "BAD:incomplete lines=%d dropped=%d reports=%d" (List.length ls) d ammo) in
       (* the pool model on the observed shot counts: launches, reports, finishes, awaits; no external cancel *)
-      let h = List.init instances (fun _ -> PLaunch) @ [PStartSent; PAwaitStart]
+      let started = List.length cs in
+      let h = List.init started (fun _ -> PLaunch) @ [PStartSent; PAwaitStart]
               @ List.concat (List.mapi (fun i c -> List.init c (fun _ -> PReport (nat_of_int i)) @ [PInstFinish (nat_of_int i); PAwaitRun]) cs) in
       let pred =
         (match prun false pool_init h with
-         | Some p when p.run_cancelled || instances = 0 ->
+         | Some p when p.run_cancelled || started = 0 ->
              Printf.sprintf "nil late=%d %s nil - %s" (int_of_nat p.late) counts payload
          | Some _ -> "model:aggregator-never-cancelled"
          | None -> "model:history-not-enabled") in
@@ -168,7 +169,7 @@ let engine_case fmt instances ammo obs : string * string * bool =
   | _ -> ("model:no-prediction", "BAD:engine-run-" ^ (String.concat "_" (split_blank obs)), false)
 
 (* ---- signal cases ---- *)
-let signal_case obs : string * string * bool =
+let signal_case (orderly_exit : string) (h : cev list) (reason : exit_reason) obs : string * string * bool =
   match split_blank obs with
   | [exit; missing; dup; malformed; tail; foreign; had; lines; info] ->
       let geti pfx tok = (match field_after pfx tok with Some x -> int_of_string x | None -> -1) in
@@ -177,18 +178,17 @@ let signal_case obs : string * string * bool =
       let sample = (match field_after "lines:" lines with Some "-" | None -> [] | Some x -> String.split_on_char ',' x) in
       let parse_ok = List.for_all (fun hx -> match parse_phout true (bytes_of_hex hx) with Some _ -> true | None -> false) sample in
       let v =
-        if exit <> "interrupted" then "BAD:unexpected-exit-" ^ exit
-        else if mf > 0 || not parse_ok then "BAD:malformed-line"
-        else if m > 0 || t = 0 then Printf.sprintf "BAD:exit-before-aggregator-close missing=%d cut-last-line=%d" m (1 - t)
+        if mf > 0 || not parse_ok then "BAD:malformed-line"
+        else if m > 0 || t = 0 then Printf.sprintf "BAD:exit-before-aggregator-close exit=%s missing=%d cut-last-line=%d" exit m (1 - t)
+        else if exit <> orderly_exit then "BAD:unexpected-exit-" ^ exit
         else if d > 0 then "BAD:duplicate-lines"
         else if fo > 0 then "BAD:foreign-lines"
         else "ok" in
-      (* the process model: the orderly execution after a signal *)
-      let h = [CSignal; CCancel; CRunReturns; CAggrClosed O; CPoolDone O; CExit ExInterrupted] in
+      (* the process model: the orderly execution of this exit path *)
       let pred =
-        (match crun cli_waits (proc_init (S O)) h with
-         | Some s when all_true s.aggr_closed && s.exited = Some ExInterrupted ->
-             String.concat " " ["interrupted"; "missing=0"; "dup=0"; "malformed=0"; "tail=1"; "foreign=0"; had; lines; info]
+        (match crun cli_waits cli_failed_waits (proc_init (S O)) h with
+         | Some s when all_true s.aggr_closed && s.exited = Some reason ->
+             String.concat " " [orderly_exit; "missing=0"; "dup=0"; "malformed=0"; "tail=1"; "foreign=0"; had; lines; info]
          | _ -> "model:orderly-exit-not-enabled") in
       (pred, v, had = "had=1")
   | _ -> ("model:no-prediction", "BAD:signal-run-" ^ (String.concat "_" (split_blank obs)), false)
@@ -221,8 +221,10 @@ let predict (c : string) (obs : string) : string * string * bool =
       end else (p, "ok", false)
   | ["aggr"; fmt; q; g; per; mode; delay; _; _] | ["aggr"; fmt; q; g; per; mode; delay; _; _; _] ->
       aggr_case fmt (int_of_string q) (int_of_string g) (int_of_string per) mode (int_of_string delay) obs
-  | ["engine"; fmt; instances; ammo; _; _] -> engine_case fmt (int_of_string instances) (int_of_string ammo) obs
-  | "signal" :: _ -> signal_case obs
+  | ["engine"; fmt; instances; ammo; _; _] -> engine_case fmt (int_of_string instances) (int_of_string ammo) false obs
+  | ["engine"; fmt; instances; ammo; _; _; _; _] -> engine_case fmt (int_of_string instances) (int_of_string ammo) true obs
+  | "signal" :: _ -> signal_case "interrupted" [CSignal; CCancel; CRunReturns; CAggrClosed O; CPoolDone O; CExit ExInterrupted] ExInterrupted obs
+  | "fail" :: _ -> signal_case "failed" [CRunFails; CCancel; CAggrClosed O; CPoolDone O; CExit ExFailed] ExFailed obs
   | _ -> ("unknown-case", "BAD:unknown-case", false)
 
 let () = run_cases predict
